@@ -1,1 +1,12 @@
-/-! Property theorems for C14 — placeholder until the property's model is built. -/
+import FcpptModel.Spec.C14
+/-! Property theorems for C14 (skeleton; extended below). -/
+namespace Fcppt.C14
+
+theorem get_init {n : Nat} (f : Fin n → Int) (i : Fin n) : (init f).get i = f i := by
+  simp [init, fromArray, Storage.get]
+
+/-- `at_r_c<R, C>(m)` reads element `R * columns + C` of the storage -/
+theorem atRC_eq_entry {r c : Nat} (m : Mat r c) (i : Fin r) (j : Fin c) : m.atRC i j = m.entry i j := by
+  simp [Mat.atRC, atI, Mat.atR, Storage.get, Mat.entry]
+
+end Fcppt.C14
